@@ -253,6 +253,68 @@ def params_list(tier):
     return out
 
 
+# ---------------------------------------------------------------------------
+# part "direct": a keyed ConnectionBase driven the way tests/connection_test.py drives it (send + _build_packet +
+# _encode_packet) with a harness-owned clock.  The owner may call as often as it likes and the clock need not move
+# between two calls (coarse or cached clocks): clock-step patterns x call patterns, on the reduced ring.
+
+DIRECT_STEPS = [0.0, 1e-9, 1e-4, 1.0 / 120, 1.0 / 60, 1.0 / 60 + 1e-9, 0.02, 0.25, 1.0]
+
+
+def direct_work(arg):
+    from mpgameserver.connection import ConnectionBase
+    is_server, pattern, calls_per_reading, total = arg
+    viols = {}
+    patches = seams.Patches()
+    patches.set(SeqNum, "_max_sequence", 63)
+    patches.set(SeqNum, "_threshold", 31)
+    emitted = 0
+    try:
+        now = [5000.25]
+        conn = ConnectionBase(is_server, ("10.0.0.9", 9))
+        conn.clock = lambda: now[0]
+        conn.session_key_bytes = bytes(range(16))
+        conn.status = ConnectionStatus.CONNECTED
+        nonces = {}
+        k = 0
+        for i in range(total):
+            now[0] += pattern[i % len(pattern)]
+            for j in range(calls_per_reading):
+                k += 1
+                conn.send(MARK + b"%d" % k)
+                pkt = conn._build_packet()
+                if pkt is None:
+                    continue
+                data = conn._encode_packet(pkt)
+                emitted += 1
+                nonce = bytes(data[:12])
+                if nonce in nonces:
+                    viols.setdefault(("nonce-reuse", "a connection driven directly (send + _build_packet, clock not always moving between calls) seals two datagrams with the same nonce"),
+                                     [0, {"part": "direct", "arg": list(arg)}, "datagram #%d reuses the nonce of #%d (%s); clock steps %r, %d calls per reading" % (
+                                         emitted, nonces[nonce], nonce.hex(), pattern, calls_per_reading)])[0] += 1
+                nonces[nonce] = emitted
+                try:
+                    AESGCM(conn.session_key_bytes).decrypt(data[:12], data[20:], data[:20])
+                except Exception:
+                    viols.setdefault(("not-gcm", "a datagram built by a keyed connection does not decrypt with header as AAD (direct drive)"), [0, {"part": "direct", "arg": list(arg)}, data[:20].hex()])[0] += 1
+                if MARK in data:
+                    viols.setdefault(("cleartext", "application bytes in clear (direct drive)"), [0, {"part": "direct", "arg": list(arg)}, ""])[0] += 1
+    finally:
+        patches.undo()
+    return emitted, viols
+
+
+def direct_jobs(tier):
+    jobs = []
+    pats = [(d,) for d in DIRECT_STEPS] + [(0.0, 0.0, 0.0, 0.02), (1e-9, 0.0, 1.0 / 60), (0.0, 1.0), (1.0 / 60, 0.0)]
+    for is_server in (False, True):
+        for pattern in pats:
+            for cpr in (1, 3):
+                total = 400 if tier == "quick" else 2000
+                jobs.append((is_server, pattern, cpr, total))
+    return jobs
+
+
 def run(tier, seed):
     rep = core.Report()
     plist = params_list(tier)
@@ -267,6 +329,14 @@ def run(tier, seed):
         if key not in acc:
             acc[key] = [sig_counts.get(key, 1), {"part": "histories", "params": v["params"], "choices": v["choices"], "labels": v["labels"]},
                         v["message"] + " | params=%r deviations=%r" % (v["params"], v["labels"])]
+    djobs = direct_jobs(tier)
+    d_emitted = 0
+    for emitted, viols in core.pmap("checks.c03", "direct_work", djobs):
+        d_emitted += emitted
+        for key, (cnt, wit, msg) in viols.items():
+            if key not in acc:
+                acc[key] = [0, wit, msg]
+            acc[key][0] += cnt
     long_rows = []
     if tier == "thorough":
         res = core.pmap("checks.c03", "long_wrap_work", [140000])
@@ -282,10 +352,10 @@ def run(tier, seed):
     rep.coverage = {
         "states": st.points, "transitions": st.steps, "traces_validated_against_impl": st.executions,
         "executions": st.executions, "by_deviations": st.by_cost, "configurations": len(plist), "capped": st.capped,
-        "distinct_outcomes": len(st.outcomes), "long_wrap_histories": long_rows,
+        "distinct_outcomes": len(st.outcomes), "long_wrap_histories": long_rows, "direct_drive_configurations": len(djobs), "direct_drive_datagrams": d_emitted,
         "evaluations": st.executions, "distinct_nontrivial": len(st.outcomes),
         "rule": "histories = all programs of <=%d steps over %r x start states {early sends during the handshake, fresh, both counters preset to 65530, reduced ring 63} x <=1 deviation (drop/dup/delay8 of any datagram); "
-                "every emitted datagram is checked by the monitor (reference AES-GCM decrypt with the 20-byte header as AAD, nonce table per session key, plaintext marker); outcomes = (encrypted seen, wrapped, #clear datagrams)" % (
+                "every emitted datagram is checked by the monitor (reference AES-GCM decrypt with the 20-byte header as AAD, nonce table per session key, plaintext marker); outcomes = (encrypted seen, wrapped, #clear datagrams); plus direct drive of a keyed ConnectionBase (send + _build_packet) under clock-step patterns incl. a clock that does not move between calls" % (
                     2 if tier == "quick" else 3, STEPS),
         "exhaustive": not st.capped, "samples": st.samples[:4],
     }
@@ -298,6 +368,10 @@ def replay(witness):
     if witness.get("part") == "histories":
         ch = explore.replay_choices(scenario, _tup(witness["params"]), witness["choices"])
         return [core.Violation(o, s, witness, m) for o, s, m in ch.found]
+    if witness.get("part") == "direct":
+        a = witness["arg"]
+        emitted, viols = direct_work((a[0], tuple(a[1]), a[2], a[3]))
+        return [core.Violation(k[0], k[1], witness, v[2]) for k, v in viols.items()]
     return []
 
 
